@@ -16,7 +16,7 @@ FMT_DEFS = {
 
 
 def gen_case(rng, scale=1):
-    params = dict(n_contigs=rng.choice([1, 1, 2]), n_trios=0, quartet=False, n_singles=rng.choice([1, 2, 2, 3]),
+    params = dict(n_contigs=rng.choice([1, 2, 2]), n_trios=0, quartet=False, n_singles=rng.choice([1, 2, 2, 3]),
                   n_variants=[4, 7 + 2 * scale], depth=[3, 6], read_len=[130, 380], het_prob=rng.choice([0.6, 0.8, 0.95]),
                   recomb_prob=0.0, kinds=rng.choice([["snv"], ["snv"], ["snv", "snv", "ins", "del"]]),
                   shuffle_samples=False)
@@ -24,9 +24,13 @@ def gen_case(rng, scale=1):
     params["gt_error_prob"] = rng.choice([0.1, 0.2]) if distrust else 0.0
     return {"kind": "history", "gen_seed": rng.randrange(1 << 40), "params": params,
             "vcf": {"flip_prob": rng.choice([0.0, 0.5, 0.5, 1.0]), "pre": rng.choice(["none", "none", "PS", "HP", "per-sample"]),
-                    "decoys": rng.random() < 0.5, "dp": rng.random() < 0.5},
+                    "decoys": rng.random() < 0.5, "dp": rng.random() < 0.5,
+                    # one sample has no reads on the last contig (a family without accessible positions there)
+                    "noreads": rng.random() < 0.25},
             "opts": {"tag1": rng.choice(["PS", "HP"]), "distrust": distrust, "include_hom": bool(distrust and rng.random() < 0.4),
-                     "subset": rng.random() < 0.3, "only_snvs": rng.random() < 0.2}}
+                     "subset": rng.random() < 0.3, "only_snvs": rng.random() < 0.2,
+                     # run C restricted to the first chromosome; run E = re-phase C back with the first tag (PS -> HP -> PS)
+                     "chrom_subset": rng.random() < 0.4, "back": rng.random() < 0.6}}
 
 
 def build_inputs(case, d):
@@ -85,7 +89,11 @@ def build_inputs(case, d):
     os.makedirs(d, exist_ok=True)
     fa, bam, vcf = (os.path.join(d, "in" + e) for e in (".fasta", ".bam", ".vcf"))
     sim.write_fasta(fa, sc.contigs)
-    sim.write_bam(bam, sc.contigs, sc.reads, [("rg_" + s, s) for s in sc.samples])
+    reads = sc.reads
+    if v.get("noreads") and (len(sc.samples) > 1 or len(sc.contigs) > 1):
+        last = list(sc.contigs)[-1]
+        reads = [r for r in reads if not (r["sample"] == sc.samples[-1] and r["chrom"] == last)]
+    sim.write_bam(bam, sc.contigs, reads, [("rg_" + s, s) for s in sc.samples])
     sim.write_vcf(vcf, sc.contigs, sc.samples, recs, fmt_defs={k: FMT_DEFS[k] for k in fmt if k in FMT_DEFS})
     return fa, bam, vcf, sc
 
